@@ -4,6 +4,7 @@ package verifrt
 
 import (
 	"fmt"
+	"sync"
 	"time"
 )
 
@@ -122,19 +123,30 @@ func (b *BFS) Run() bool {
 		roots = [][]Event{nil}
 	}
 	complete := true
+	// one global frontier over all roots: level order by user depth is preserved across roots, so that a
+	// cut by the deadline still leaves every history below the reported depth explored
+	frontier := [][]Event{}
 	for _, root := range roots {
-		frontier := [][]Event{}
 		s0 := b.build(root)
 		k0 := s0.Key()
 		if !b.seen[k0] {
 			b.seen[k0] = true
 			b.Res.Count("states", 1)
+			frontier = append(frontier, root)
 		}
-		frontier = append(frontier, root)
+	}
+	{
 		for len(frontier) > 0 {
 			if !b.Deadline.IsZero() && time.Now().After(b.Deadline) {
 				complete = false
-				b.Res.NotExhaustive(fmt.Sprintf("time budget reached with %d histories in the frontier", len(frontier)))
+				minDepth := 1 << 30
+				for _, h := range frontier {
+					if d := userCount(h); d < minDepth {
+						minDepth = d
+					}
+				}
+				b.Res.NotExhaustive(fmt.Sprintf("time budget reached with %d histories in the frontier; every history with fewer than %d user events was expanded", len(frontier), minDepth))
+				b.Res.Info["completed_user_depth"] = minDepth
 				break
 			}
 			h := frontier[0]
@@ -214,4 +226,113 @@ func (b *BFS) Replay(h []Event) System {
 		}
 	}
 	return s
+}
+
+// RunParallel is Run for systems whose instances share no mutable state: the frontier is expanded level by
+// level by `workers` goroutines that share one seen-set (no duplicated work, unlike process sharding).
+// Choice exploration (ChoiceKinds) is not supported here: the chooser is process-global.
+func (b *BFS) RunParallel(workers int) bool {
+	if len(b.ChoiceKinds) > 0 {
+		panic("verifrt.BFS: RunParallel does not support choice exploration")
+	}
+	if b.seen == nil {
+		b.seen = map[string]bool{}
+	}
+	var mu sync.Mutex
+	roots := b.Roots
+	if roots == nil {
+		roots = [][]Event{nil}
+	}
+	var level [][]Event
+	for _, root := range roots {
+		k0 := b.build(root).Key()
+		if !b.seen[k0] {
+			b.seen[k0] = true
+			b.Res.Count("states", 1)
+			level = append(level, root)
+		}
+	}
+	depthDone := 0
+	for len(level) > 0 {
+		if !b.Deadline.IsZero() && time.Now().After(b.Deadline) {
+			b.Res.NotExhaustive(fmt.Sprintf("time budget reached with %d histories in the frontier; %d levels were expanded completely", len(level), depthDone))
+			b.Res.Info["completed_levels"] = depthDone
+			return false
+		}
+		var next [][]Event
+		var wg sync.WaitGroup
+		cut := false
+		chunk := (len(level) + workers - 1) / workers
+		for w := 0; w < workers; w++ {
+			lo, hi := w*chunk, (w+1)*chunk
+			if lo >= len(level) {
+				break
+			}
+			if hi > len(level) {
+				hi = len(level)
+			}
+			wg.Add(1)
+			go func(part [][]Event) {
+				defer wg.Done()
+				var mine [][]Event
+				for _, h := range part {
+					if !b.Deadline.IsZero() && time.Now().After(b.Deadline) {
+						mu.Lock()
+						cut = true
+						mu.Unlock()
+						break
+					}
+					sys := b.build(h)
+					evs := sys.Enabled()
+					uc, fc := userCount(h), faultCount(h)
+					for i, ev := range evs {
+						if (ev.User && uc >= b.MaxUser) || (ev.Fault && fc >= b.MaxFault) || len(h) >= b.Horizon {
+							continue
+						}
+						s2 := sys
+						if i > 0 || sys == nil {
+							s2 = b.build(h)
+						}
+						sys = nil
+						var pre interface{}
+						if b.Before != nil {
+							pre = b.Before(s2, ev)
+						}
+						s2.Apply(ev)
+						b.Res.Count("transitions", 1)
+						k := s2.Key()
+						mu.Lock()
+						isNew := !b.seen[k]
+						if isNew {
+							b.seen[k] = true
+						}
+						mu.Unlock()
+						nh := append(append(make([]Event, 0, len(h)+1), h...), ev)
+						if b.After != nil {
+							b.After(s2, nh, ev, pre, isNew)
+						}
+						if isNew {
+							b.Res.Count("states", 1)
+							b.Res.Max("max_history_len", int64(len(nh)))
+							b.Res.Max("max_user_depth", int64(userCount(nh)))
+							mine = append(mine, nh)
+						}
+					}
+				}
+				mu.Lock()
+				next = append(next, mine...)
+				mu.Unlock()
+			}(level[lo:hi])
+		}
+		wg.Wait()
+		if cut {
+			b.Res.NotExhaustive(fmt.Sprintf("time budget reached while expanding level %d (%d histories); %d levels were expanded completely", depthDone+1, len(level), depthDone))
+			b.Res.Info["completed_levels"] = depthDone
+			return false
+		}
+		depthDone++
+		level = next
+	}
+	b.Res.Info["completed_levels"] = depthDone
+	return true
 }
